@@ -185,6 +185,18 @@ Outcomes(g, h, op) ==
          IF a \in Atoms(g) THEN { ANS(g, AIds(Nbrs(g, a))) } ELSE Negative(g)
     [] n = "component_of" ->
          IF a \in Atoms(g) THEN { ANS(g, AIds(ReachFrom(g, {a}))) } ELSE { RAISE(g), ANS(g, AAny) }
+    [] n = "n_components" -> { ANS(g, AInt(Cardinality(Components(g)))) }
+    [] n = "role_bonds" ->         \* get_formed_bonds / get_broken_bonds / get_fleeting_bonds, bonds as codes
+         IF HasRoles(g.kind) THEN { ANS(g, AIds({ BondCode(bb) : bb \in RoleBonds(g, op.ch) })) } ELSE {}
+    [] n = "active_atoms" ->       \* op.flag: one additional layer of neighbours
+         LET core == ActiveCore(g)
+             lay  == IF op.flag THEN core \cup UNION { Nbrs(g, x) : x \in core } ELSE core
+             ph   == HasChanges(g.kind) /\ (\/ (\E k1 \in DOMAIN g.ach : \E c1 \in DOMAIN g.ach[k1] : Mentions(g.ach[k1][c1], NoAtom))
+                                             \/ (\E k2 \in DOMAIN g.bch : \E c2 \in DOMAIN g.bch[k2] : Mentions(g.bch[k2][c2], NoAtom)))
+         IN IF ~HasRoles(g.kind) THEN {}
+            ELSE IF core \subseteq Atoms(g) /\ ~ph THEN { ANS(g, AIds(lay)) }
+            \* no property says whether a lone-pair placeholder or a vanished atom is "active"
+            ELSE { ANS(g, AIds(lay)), ANS(g, AIds(lay \cup {NoAtom})), ANS(g, AAny), RAISE(g) }
     [] n = "get_atom_stereo" ->
          IF a \notin Atoms(g) THEN Negative(g)
          ELSE IF a \in DOMAIN g.ast THEN { ANS(g, ADescr(g.ast[a])) } ELSE { ANS(g, NoAns) }
@@ -241,7 +253,8 @@ Mutators == {"add_atom", "remove_atom", "add_bond", "add_formed_bond", "add_brok
              "del_bond_stereo", "set_atom_stereo_change", "set_bond_stereo_change",
              "del_atom_stereo_change", "del_bond_stereo_change", "relabel_inplace"}
 Queries == {"has_atom", "has_bond", "n_atoms", "get_atom_type", "get_atom_attr", "get_bond_attr",
-            "bonded_to", "component_of", "get_atom_stereo", "get_bond_stereo",
+            "bonded_to", "component_of", "n_components", "role_bonds", "active_atoms",
+            "get_atom_stereo", "get_bond_stereo",
             "get_atom_stereo_change", "get_bond_stereo_change", "is_stereo_valid",
             "eq_self", "eq_copy", "hash", "str", "to_json", "to_rdmol"}
 Derivers == {"copy", "json_roundtrip", "copy_ctor", "copy_mod", "relabel_copy", "subgraph", "enantiomer",
